@@ -239,3 +239,20 @@ def pieces_1d(e, assume=None):
     if ths is None:
         return None
     return var, ths, [(reg, eval_in_region(e, var, reg, ths)) for reg in regions_1d(ths)]
+
+
+def drop_ties(e):
+    """identify p >= 0 with p > 0 (equality modulo the tie set p == 0)"""
+    e = PW.of(e)
+    if e.is_leaf():
+        return e
+    c = e.cond
+    if c.op == ">=":
+        c = Cond(c.p, ">")
+    elif c.op == "<":
+        c = Cond(c.p, "<=")
+    return PW.ite(c, drop_ties(e.a), drop_ties(e.b))
+
+
+def pw_equal_mod_ties(a, b):
+    return pw_equal(drop_ties(a), drop_ties(b))
